@@ -1,3 +1,40 @@
-From PV Require Import Model.Kernels.
-Theorem placeholder : True. Proof. exact I. Qed.
-Print Assumptions placeholder.
+(* C14  Results do not depend on whether the extensions compiled.  Statements only.
+   Both engines are modelled (Model/Fallback.v, Model/Kernels.v); they share the normalisation (with the zero-range
+   guard, after the fix of misc/mnn.py) and the detection of extremes BY CONSTRUCTION (the same Gallina functions
+   [normalize true] and [extremes_of]).  That the incremental neighbour update of the compiled kernels refines the
+   from-scratch recomputation of the fallbacks on tie-free runs is NOT proved: it is decided by running both
+   engines on the same fronts (correspondence of each engine with its model + comparison of the engines).
+   What IS machine-checked here: the agreement fails on the recorded witness (known finding), and holds on it
+   when nothing is pruned. *)
+From Coq Require Import List Bool Arith ZArith PrimFloat.
+From PV Require Import Base.Num Base.NumF Base.Res Base.ListX Base.Cmp Model.Crowding Model.Fallback Model.Kernels.
+Import ListNotations.
+
+Definition W_mnn : list (list float) :=
+  [[1; 2; 5]; [6; 3; 0]; [5; 0; 1]; [0; 4; 6]; [4; 1; 4]; [3; 6; 2]; [2; 5; 3]]%float.
+Definition W_mnn0 : list Z := [3; 4; 6; 2; 5; 4; 1; 4; 0; 0; 6; 4; 2; 0; 6; 6; 1; 3; 5; 3; 0]%Z.
+
+(* known finding compiled/mnn/dup-neighbour: the engines disagree on a front without coordinate ties *)
+Theorem C14_mnn_engines_agree_refuted :
+  exists F k M0 d, kernel_mnn (X := Fx) false F k M0 = Ok (d, (true, true)) /\
+                   flist_same d (fallback_mnn (X := Fx) false F k) = false.
+Proof. exists W_mnn, 2%Z, W_mnn0. eexists. split; vm_compute; reflexivity. Qed.
+Print Assumptions C14_mnn_engines_agree_refuted.
+
+(* ... and agree bit for bit on the same front when nothing has to be pruned *)
+Theorem C14_mnn_engines_agree_without_pruning_witness :
+  match kernel_mnn (X := Fx) false W_mnn 0%Z W_mnn0 with
+  | Ok (d, _) => flist_same d (fallback_mnn (X := Fx) false W_mnn 0%Z)
+  | Err _ => false end = true.
+Proof. vm_compute. reflexivity. Qed.
+Print Assumptions C14_mnn_engines_agree_without_pruning_witness.
+
+(* constant objective: the pure-Python mnn (after the fix) returns no NaN and agrees with the compiled model *)
+Definition W_const : list (list float) := [[0; 4; 1]; [1; 3; 1]; [2; 2; 1]; [3; 1; 1]; [4; 0; 1]]%float.
+Theorem C14_constant_objective_witness :
+  forallb (fun x => negb (is_nan x)) (fallback_mnn (X := Fx) false W_const 0%Z) = true /\
+  match kernel_mnn (X := Fx) false W_const 0%Z [1; 2; 3; 0; 2; 3; 1; 3; 0; 2; 4; 1; 3; 2; 1]%Z with
+  | Ok (d, _) => flist_same d (fallback_mnn (X := Fx) false W_const 0%Z)
+  | Err _ => false end = true.
+Proof. split; vm_compute; reflexivity. Qed.
+Print Assumptions C14_constant_objective_witness.
